@@ -454,6 +454,9 @@ func verifyAndFillConfig(cfg *ResponseConfig, nowMS int) error {
 	if cfg.PeriodsPerHour != nil && (*cfg.PeriodsPerHour <= 0 || *cfg.PeriodsPerHour > 3600) {
 		return fmt.Errorf("periods per hour must be in the interval 1-3600")
 	}
+	if cfg.StopTimeS != nil && *cfg.StopTimeS < cfg.StartTimeS {
+		return fmt.Errorf("stop time %d is before start time %d", *cfg.StopTimeS, cfg.StartTimeS)
+	}
 	if cfg.ContMultiPeriodFlag && cfg.PeriodsPerHour == nil {
 		return fmt.Errorf("period continuity set, but not multiple periods per hour")
 	}
